@@ -172,10 +172,21 @@ def sany(module, cwd=None):
     return ok, p.stdout
 
 
+def _no_null(x):
+    """TLC's JSON reader rejects null: ship it as the string "null"."""
+    if x is None:
+        return 'null'
+    if isinstance(x, dict):
+        return {k: _no_null(v) for k, v in x.items()}
+    if isinstance(x, (list, tuple)):
+        return [_no_null(v) for v in x]
+    return x
+
+
 def write_ndjson(path, records):
     with open(path, 'w') as f:
         for r in records:
-            f.write(json.dumps(r, separators=(',', ':')))
+            f.write(json.dumps(_no_null(r), separators=(',', ':')))
             f.write('\n')
 
 
